@@ -111,6 +111,23 @@ type DEmbedUnexpPtr struct {
 	*dinner
 	W int
 }
+type DEmbedUnexpTagged struct {
+	dinner `ion:"inner"`
+	W      int
+}
+type DEmbedUnexpPtrTagged struct {
+	*dinner `ion:"inner"`
+	W       int
+}
+type DEmbedDec struct {
+	*ion.Decimal
+	big.Int
+	N int
+}
+type DAnnAny struct {
+	V int
+	A interface{} `ion:",annotations"`
+}
 type DEmbedTagged struct {
 	DInner `ion:"inner"`
 	W      int
@@ -207,7 +224,7 @@ func init() {
 	for _, v := range []interface{}{DRenamed{}, DOmitInts{}, DOmitColl{}, DHints{}, DAnnInt{}, DAnnIface{}, DAnnStr{},
 		DAnnOnly{}, DAnnList{}, DAnnStruct{}, DInner{}, dinner{}, DEmbed{}, DEmbedPtr{}, DEmbedUnexp{}, DEmbedUnexpPtr{},
 		DEmbedTagged{}, DUnexported{}, DDash{}, DDupNames{}, DDupEmbed{}, DNestedPtr{}, DMaps{}, DArrays{}, DIfaces{},
-		DSpecial{}, DSpecial2{}, DCase{}, DAllInts{}, DEmbedTS{}} {
+		DSpecial{}, DSpecial2{}, DCase{}, DAllInts{}, DEmbedTS{}, DEmbedUnexpTagged{}, DEmbedUnexpPtrTagged{}, DEmbedDec{}, DAnnAny{}} {
 		declare(v)
 	}
 }
@@ -1303,7 +1320,10 @@ func init() {
 		if pre != "" {
 			return pre
 		}
-		fs := ion.VerifFieldsFor(t)
+		fs, err := ion.VerifFieldsFor(t)
+		if err != nil {
+			return "err"
+		}
 		out := []string{"ok"}
 		for _, f := range fs {
 			p := ""
